@@ -22,10 +22,10 @@ Proof.
   intros Hwf s. unfold convert_sf, s. cbn [sKind sVals sRecs sf_records]. unfold vv. cbn [nth].
   unfold mk_header, EncSFlow.mk, fix_rec. cbn [rKind rVals rBlobs rFmt rLists]. unfold sf_record. cbn [rKind rVals rBlobs].
   unfold vv, bb. cbn [nth N.eqb Pos.eqb].
-  destruct (parse_full_capture_on (sample_base rate inif outif flen) f (repeat 0 (pad4 (length (encode_frame f)))) Hwf)
+  destruct (parse_full_capture_on (sample_base rate inif outif flen) f [] Hwf)
     as (m & Hp & Hm); try reflexivity.
-  - rewrite peek_pad. reflexivity.
-  - unfold sample_base in Hp. rewrite Hp. exists m. split; [reflexivity|exact Hm].
+  - rewrite app_nil_r. reflexivity.
+  - rewrite app_nil_r in Hp. unfold sample_base in Hp. rewrite Hp. exists m. split; [reflexivity|exact Hm].
 Qed.
 
 Theorem raw_header_expanded_sample f hdr rate pool drops infmt inif outfmt outif flen stripped :
@@ -37,10 +37,10 @@ Proof.
   intros Hwf s. unfold convert_sf, s. cbn [sKind sVals sRecs sf_records]. unfold vv. cbn [nth].
   unfold mk_header, EncSFlow.mk, fix_rec. cbn [rKind rVals rBlobs rFmt rLists]. unfold sf_record. cbn [rKind rVals rBlobs].
   unfold vv, bb. cbn [nth N.eqb Pos.eqb].
-  destruct (parse_full_capture_on (sample_base rate inif outif flen) f (repeat 0 (pad4 (length (encode_frame f)))) Hwf)
+  destruct (parse_full_capture_on (sample_base rate inif outif flen) f [] Hwf)
     as (m & Hp & Hm); try reflexivity.
-  - rewrite peek_pad. reflexivity.
-  - unfold sample_base in Hp. rewrite Hp. exists m. split; [reflexivity|exact Hm].
+  - rewrite app_nil_r. reflexivity.
+  - rewrite app_nil_r in Hp. unfold sample_base in Hp. rewrite Hp. exists m. split; [reflexivity|exact Hm].
 Qed.
 
 (* ---- IPFIX dataLinkFrameSection (element 315) ---- *)
